@@ -236,6 +236,69 @@ example : load (TmpBytes.run (tmpProgram ++ [.rollback 0])).t [0, 1] = .found [7
 example : (TmpBytes.run (tmpProgram ++ [.rollback 0, .rollback 1])).t =
     (TmpBytes.run (tmpProgram ++ [.rollback 0])).t := by decide +kernel
 
+/-! entries ↔ bytes: `ZodbModel/Conn.lean` models the same class with the temporary file as a LIST OF
+    ENTRIES (`position` = number of entries, `index` = entry numbers, `reset` = `entries.take`).  That
+    abstraction is sound for the byte layout: -/
+open Proofs.TmpBytes in
+/-- (1) seeking to the byte offset of entry number `p` and parsing gives entry `p` -/
+theorem tmpstore_entry_at_offset (es : List Entry) (p : Nat) (e : Entry) (idx : Index)
+    (h : es[p]? = some e) (hidx : lookup idx e.oid = some (offset es p))
+    (hs : e.serial.length = 8) (ho : e.oid.length < 2 ^ 64) (hd : e.data.length < 2 ^ 64) :
+    load ⟨encAll es, (encAll es).length, idx⟩ e.oid = .found e.data e.serial :=
+  Proofs.TmpBytes.load_of_rec _ e.oid e.serial e.data (encAll (es.drop (p + 1))) (offset es p) hidx
+    (Proofs.TmpBytes.drop_offset_entry es p e h) hs ho hd
+
+open Proofs.TmpBytes in
+/-- (2) `store` on the bytes of `es` = appending one entry; `position` moves from the offset of entry number
+    `es.length` to the offset of entry number `es.length + 1` -/
+theorem tmpstore_store_is_append (es : List Entry) (idx : Index) (o : Bytes) (sr : Option Bytes) (d : Bytes) :
+    (store ⟨encAll es, offset es es.length, idx⟩ o sr d).1 =
+      ⟨encAll (es ++ [⟨o, sr.getD z64, d⟩]), offset (es ++ [⟨o, sr.getD z64, d⟩]) (es.length + 1),
+       (o, offset es es.length) :: idx⟩ := by
+  have h1 : offset (es ++ [⟨o, sr.getD z64, d⟩]) (es.length + 1) =
+      (encAll (es ++ [⟨o, sr.getD z64, d⟩])).length := by
+    have := offset_length (es ++ [⟨o, sr.getD z64, d⟩])
+    simpa using this
+  rw [h1, offset_length, encAll_append]
+  have h2 : encAll [(⟨o, sr.getD z64, d⟩ : Entry)] = encEntry ⟨o, sr.getD z64, d⟩ := by simp [encAll]
+  simp only [store, writeAt_end, h2, List.length_append]
+
+open Proofs.TmpBytes in
+/-- (3) `reset` to the byte offset of entry number `p` = `entries.take p` -/
+theorem tmpstore_reset_is_take (es : List Entry) (p : Nat) (idx idx' : Index) :
+    reset ⟨encAll es, (encAll es).length, idx⟩ (offset es p) idx' =
+      ⟨encAll (es.take p), offset es p, idx'⟩ := by
+  have hle := offset_le es p
+  simp only [reset, truncate, take_offset]
+  have : offset es p - (encAll es).length = 0 := by omega
+  simp [this]
+
+open Proofs.TmpBytes in
+/-- … and for the entry-level store of the connection model itself: whatever `Conn.TmpStore.loadAt` returns
+    for entry number `p` is what the byte-level `load` parses at that entry's offset, for ANY encoding `f` of
+    the model's abstract records into (oid, serial, data) byte strings the class accepts -/
+theorem conn_tmpstore_loadAt_bytes (f : Oid × Conn.Rec → Entry) (t : Conn.TmpStore) (k : Oid) (p : Nat)
+    (r : Conn.Rec) (hload : t.loadAt k p = some r) (idx : Index)
+    (hidx : lookup idx (f (k, r)).oid = some (offset (t.entries.map f) p))
+    (hs : (f (k, r)).serial.length = 8) (ho : (f (k, r)).oid.length < 2 ^ 64)
+    (hd : (f (k, r)).data.length < 2 ^ 64) :
+    load ⟨encAll (t.entries.map f), (encAll (t.entries.map f)).length, idx⟩ (f (k, r)).oid =
+      .found (f (k, r)).data (f (k, r)).serial := by
+  have he : (t.entries.map f)[p]? = some (f (k, r)) := by
+    unfold Conn.TmpStore.loadAt at hload
+    rw [List.getElem?_map]
+    cases hp : t.entries[p]? with
+    | none => simp [hp] at hload
+    | some x =>
+      obtain ⟨k', r'⟩ := x
+      simp only [hp] at hload
+      split at hload
+      · rename_i hk
+        cases hload
+        simp [hk]
+      · cases hload
+  exact tmpstore_entry_at_offset _ p _ idx he hidx hs ho hd
+
 end TmpStoreBytes
 
 end Props.C12
